@@ -9,8 +9,9 @@ listener, which single path handles it.  The model follows the code's order of t
 2. `MetaRefineryProbe.HasValue && .Value` — the event is a probe from another refinery: dropped;
 3. `MetaTraceID == ""` — not part of a trace: `UpstreamTransmission.EnqueueEvent(ev)`;
 4. `Collector.Stressed()` — `ProcessSpanImmediately(span)`; processed ∧ ¬kept: nothing more;
-   processed ∧ kept: the collector has sent the span upstream itself, the router marks *the same
-   event object* as a probe (`MetaRefineryProbe.Set(true)`);
+   processed ∧ kept: the collector has sent the span upstream itself; the router makes a *copy*
+   of the event (`probe := *ev`), marks the copy as a probe (`MetaRefineryProbe.Set(true)`) and
+   continues with the copy, so the event object queued upstream is not touched any more;
 5. `!Sharder.WhichShard(id).Equals(Sharder.MyShard())` — `ev.APIHost = target address`,
    `PeerTransmission.EnqueueEvent(ev)` (also for the stress probe);
 6. the stress probe of a locally owned trace is skipped;
@@ -30,9 +31,11 @@ from the code's constants) and the configured trace-id / parent-id field names.
 Parameters (not modelled, quantified over): the sharder (`owner : trace id → address`, `self`),
 the collector's stress state and decision, whether a collector queue is full.
 
-Aliasing (DESIGN §3.3): every sink receives the *same* event object.  A `Call` records the
-object's state at the moment of the call, `Result.final` its state when `processEvent` returns —
-which is what a transmission that still holds the pointer will eventually send.
+Aliasing (DESIGN §3.3): on every path but the stress probe the sinks receive the *same* event
+object.  A `Call` records the state of the object handed over at the moment of the call,
+`Result.final` the state of the *received* event object when `processEvent` returns — which is
+what a transmission that still holds that pointer (the upstream one, for a span kept by stress
+relief) will eventually send.  The stress probe is a separate object.
 -/
 namespace Refinery.Model.Router
 open Refinery.Gen.Router
@@ -217,7 +220,7 @@ inductive Err where
 structure Result where
   calls : List Call
   err : Err
-  final : Obj          -- state of the event object when processEvent returns
+  final : Obj          -- state of the received event object when processEvent returns
   deriving Repr, DecidableEq
 
 def obj0 (ev : Event) (nm : Names) : Obj :=
@@ -237,10 +240,10 @@ def effects (o : Obj) (k : Kind) : Outcome → Result
   | .discardProbe => ⟨[], .none, o⟩
   | .upstreamUnsampled => ⟨[⟨.up, true, o⟩], .none, o⟩
   | .stressDrop => ⟨[], .none, o⟩
-  | .stressKeep none => ⟨[⟨.upColl, true, o.stressed⟩], .none, o.stressed.asProbe⟩
+  | .stressKeep none => ⟨[⟨.upColl, true, o.stressed⟩], .none, o.stressed⟩
   | .stressKeep (some a) =>
     ⟨[⟨.upColl, true, o.stressed⟩, ⟨.peer, true, (o.stressed.asProbe).toHost a⟩], .none,
-      (o.stressed.asProbe).toHost a⟩
+      o.stressed⟩
   | .peerForward a => ⟨[⟨.peer, true, o.toHost a⟩], .none, o.toHost a⟩
   | .collectorIncoming => ⟨[⟨.collIn, true, o⟩], .none, o⟩
   | .collectorPeer => ⟨[⟨.collPeer, true, o⟩], .none, o⟩
@@ -254,5 +257,77 @@ def immCalls (ev : Event) (c : Ctx) : Nat :=
   else if (metaOf ev c.nm).probe = some true then 0
   else if (metaOf ev c.nm).tid = "" then 0
   else if c.stress = .off then 0 else 1
+
+/-! ## The dataset name across a listener hop
+
+An event crosses a listener as `POST <host>/1/batch/<segment>`: the sender
+(`transmit.buildRequestURL`) writes `segment = url.PathEscape(dataset)`, the receiver
+(`route.getDatasetFromRequest`) reads the mux variable (the router uses `UseEncodedPath`, so it is
+the segment as sent) and applies `url.PathUnescape`.  Both are modelled on bytes (`Nat < 256`).
+`url.JoinPath`'s path cleaning, the HTTP request line and gorilla/mux are not modelled: the harness
+reports the segment the mux presents (`ext seg`). -/
+
+def isAlnum (c : Nat) : Bool :=
+  (48 ≤ c && c ≤ 57) || (65 ≤ c && c ≤ 90) || (97 ≤ c && c ≤ 122)
+
+/-- Go `net/url.shouldEscape(c, encodePathSegment)`: unreserved `A-Za-z0-9-_.~` and the
+sub-delims `$ & + : = @` stay; `/ ; , ?` and every other byte are escaped. -/
+def shouldEscape (c : Nat) : Bool :=
+  !(isAlnum c || c == 45 || c == 95 || c == 46 || c == 126 ||
+    c == 36 || c == 38 || c == 43 || c == 58 || c == 61 || c == 64)
+
+/-- upper-case hex digit of `n < 16` (`"0123456789ABCDEF"[n]`) -/
+def hexDigit (n : Nat) : Nat := if n < 10 then 48 + n else 55 + n
+
+def isHex (c : Nat) : Bool :=
+  (48 ≤ c && c ≤ 57) || (65 ≤ c && c ≤ 70) || (97 ≤ c && c ≤ 102)
+
+def unhex (c : Nat) : Nat :=
+  if 48 ≤ c && c ≤ 57 then c - 48 else if 97 ≤ c && c ≤ 102 then c - 87 else c - 55
+
+/-- `url.PathEscape` -/
+def pathEscape : List Nat → List Nat
+  | [] => []
+  | c :: t =>
+    if shouldEscape c then 37 :: hexDigit (c / 16) :: hexDigit (c % 16) :: pathEscape t
+    else c :: pathEscape t
+
+/-- `url.PathUnescape`: `%XX` decoded, a `%` not followed by two hex digits is an error (`none`),
+every other byte — `+` included — is copied. -/
+def pathUnescape : List Nat → Option (List Nat)
+  | [] => some []
+  | c :: t =>
+    if c = 37 then
+      match t with
+      | h1 :: h2 :: t' =>
+        if isHex h1 && isHex h2 then (pathUnescape t').map (fun r => (16 * unhex h1 + unhex h2) :: r)
+        else none
+      | _ => none
+    else (pathUnescape t).map (fun r => c :: r)
+
+/-- `route.getDatasetFromRequest` on the mux variable: empty ⇒ "missing dataset name" -/
+def datasetOf (seg : List Nat) : Option (List Nat) :=
+  if seg = [] then none else pathUnescape seg
+
+/-- the byte string split at every `/` -/
+def splitSlash : List Nat → List (List Nat)
+  | [] => [[]]
+  | c :: t =>
+    match splitSlash t with
+    | [] => [[]]                       -- unreachable: the result is never empty
+    | s :: r => if c = 47 then [] :: s :: r else (c :: s) :: r
+
+/-- `"/1/batch/" ++ ds`, read as a path, is changed by path cleaning: an empty segment before the
+last one (`//`, or a leading `/`), or a `.` / `..` segment.  The sender's `url.JoinPath` cleans the
+dot segments `.`/`..` away; for the rest the receiving gorilla/mux *root* router — which, unlike
+the `/1/` subrouter, does not use the encoded path — sees the decoded path (`%2F` → `/`), finds it
+unclean and answers `301` instead of calling the handler. -/
+def unclean (ds : List Nat) : Bool :=
+  (splitSlash ds).any (fun s => s == [46] || s == [46, 46]) || (splitSlash ds).dropLast.any (fun s => s == [])
+
+/-- one listener hop of a dataset name, as the code does it now: `none` = the event is not handed
+to the event/batch handler under any dataset. -/
+def hop (ds : List Nat) : Option (List Nat) :=
+  if unclean ds then none else datasetOf (pathEscape ds)
 
 end Refinery.Model.Router
